@@ -190,6 +190,27 @@ def _run_base(ctx):
              'drops exactly the entries whose key is listed' if ok else 'key filter condition changed', ik)
 
 
+def key_filters_stack(ctx, rule):
+    """diff_ignore_keys(inner, keys) must filter what *its argument* produces: key lists installed for one path by
+    different sources (the `details` category, an Ignore mapping) then stack, each hiding its own keys."""
+    repo = ctx.repo
+    outer = repo.func(NB + ':diff_ignore_keys')
+    inner = repo.func(NB + ':diff_ignore_keys.ignored_diff')
+    prm = outer.args.args[0].arg
+    kprm = outer.args.args[1].arg
+    rebinds = [(v, k, st) for v, k, st in local_defs(outer).get(prm, [])]
+    calls = [c for c in calls_in(inner) if isinstance(c.func, ast.Name) and c.func.id == prm]
+    ok = not rebinds and len(calls) >= 1
+    ctx.inst(rule, NB + ':diff_ignore_keys', 'wrapped differ: parameter %s, %d rebinding(s), called %d time(s) by the filter' % (prm, len(rebinds), len(calls)), ok,
+             'the filter calls the differ it was given' if ok else
+             ('the wrapped differ is replaced before it is called (%s): a key filter installed earlier for the same path is unwrapped and its keys show up again'
+              % ast.unparse(rebinds[0][0])[:70] if rebinds else 'the filter no longer calls the wrapped differ'),
+             rebinds[0][2] if rebinds and isinstance(rebinds[0][2], ast.AST) else outer)
+    krebinds = local_defs(outer).get(kprm, []) + local_defs(inner).get(kprm, [])
+    ctx.inst(rule, NB + ':diff_ignore_keys', 'key list: parameter %s, %d rebinding(s)' % (kprm, len(krebinds)), not krebinds,
+             'filters exactly the keys it was given' if not krebinds else 'the key list is altered before filtering', outer)
+
+
 def _own_path(fn):
     """Fixed path of a node-specific differ: from `assert path == "<lit>"` or the default of `path`."""
     for n in walk_no_nested(fn):
@@ -245,9 +266,11 @@ def run(ctx):
     differ of the parent object looks the table up for that key.  diff_dicts does so under a guard; the guard is evaluated
     here, three-valued, for every whole-path entry of the category table with: the JSON types nbformat's schema admits at
     the path, the `atomic_paths` literal of notebook_config, and the fallback of DiffConfig.is_atomic."""
+    ctx.rule('R14.6', 'key filters stack: diff_ignore_keys filters the output of the very differ it was given, with the key list it was given', floor=2)
     ctx.rule('R14.5', 'every path a category is ignored at as a whole is looked up in the differ table by its parent differ, '
              'for every JSON type the schema admits there (atomic paths included)', floor=6)
     _run_base(ctx)
+    key_filters_stack(ctx, 'R14.6')
     repo = ctx.repo
     fn, params, table = ignore_table(ctx)
     sch = NbSchema(5)
